@@ -786,6 +786,34 @@ def _table_value_names(p, fi, expr):
     return None
 
 
+def _enum_attr_names(p, fi, expr):
+    """`expr` is `<var>.<attr>` where <var> is the target of a for / comprehension over an Enum class of the package and <attr>
+    is `name`, `value` or a property the enum defines: the strings it yields over the members (evaluated, not executed)."""
+    if not (isinstance(expr, ast.Attribute) and isinstance(expr.value, ast.Name)):
+        return None
+    var, iters = expr.value.id, []
+    for n in ast.walk(fi.node):
+        if isinstance(n, (ast.comprehension, ast.For)) and any(isinstance(x, ast.Name) and x.id == var for x in ast.walk(n.target)):
+            iters.append(n.iter)
+    if len(iters) != 1 or not isinstance(iters[0], ast.Name):
+        return None
+    ci = next((c for c in p.classes.values() if c.name == iters[0].id and c.is_enum), None)
+    if ci is None:
+        return None
+    from ..evalr import Evaluator as _E, Frame as _F, Facts as _Fa
+    ev = _E(p, 'ecdsa')
+    out = []
+    for _n, m in ev._enum_members(ci, 0):
+        try:
+            v = ev.getattr(m, expr.attr, _F(fi, {}, _Fa(), fi.module, fi.cls, 0), expr)
+        except Exception:
+            return None
+        if not (T.is_const(v) and isinstance(v[1], str)):
+            return None
+        out.append(v[1])
+    return tuple(out)
+
+
 def _is_cli_namespace(p, fi, name, _depth=0):
     """Is local `name` of fi the argparse namespace: bound from a *parse_args(...) call, or a parameter that every call
     site fills with such a variable?"""
@@ -981,6 +1009,12 @@ def run(ctx):
                         ob.evaluations += 1
                         ob.note('getattr on the argparse namespace in %s (not a node / wallet object)' % fi.qual[len(PKG) + 1:])
                         continue
+                    if n.func.id in ('getattr', 'setattr') and len(n.args) >= 2:
+                        names_ = _enum_attr_names(p, fi, n.args[1])
+                        if names_ is not None and 'children' not in names_ and 'parent' not in names_:
+                            ob.evaluations += 1
+                            ob.note('%s over the names %s computed from the members of an Enum in %s' % (n.func.id, list(names_), fi.qual[len(PKG) + 1:]))
+                            continue
                     if n.func.id == 'getattr' and len(n.args) >= 2:
                         names_ = _table_value_names(p, fi, n.args[1])
                         if names_ is not None and 'children' not in names_:
